@@ -88,6 +88,24 @@ def main():
             print(json.dumps({"reproduced": True, "tried": tried, "input": {"options": repr(kw)},
                               "detail": f"configuration with two violated constraints ({n1}; {n2}) was accepted"}))
             return
+    # an invalid value stays invalid whatever the other (valid) options are: every invalid assignment inside every valid context
+    for (n1, o1), (n2, o2) in itertools.product(INVALID, VALID):
+        if set(o1) & set(o2):
+            continue
+        kw = dict(o2)
+        kw.update(o1)
+        if kw.get("vectorize") and kw.get("blobs_dtype") and "vectorize+blobs" not in n1:
+            continue
+        tried += 1
+        err, s = construct(kw)
+        if err is None:
+            print(json.dumps({"reproduced": True, "tried": tried, "input": {"options": repr(kw)},
+                              "detail": f"invalid value ({n1}) was accepted by Sampler(...) in the context of the valid options ({n2}): no exception"}))
+            return
+        if CALLS["n"]:
+            print(json.dumps({"reproduced": True, "tried": tried, "input": {"options": repr(kw)},
+                              "detail": f"user callables were called {CALLS['n']} times before the rejection of ({n1}) in the context ({n2})"}))
+            return
     for name, opts in VALID:
         tried += 1
         err, s = construct(opts)
